@@ -57,6 +57,8 @@ def gen_case(cseed: int, tier: str) -> dict[str, Any]:
         feats.discard("far_banks")
     if w.random() < 0.08:
         feats.add("big_incbin")
+    if mapping == "low2" and w.random() < 0.25:
+        feats.add("low2_upper")  # banks 0xD0-0xFF: only the low2 mapping has them (no cross-check against low)
     defines: list[tuple[str, str]] = []
     if w.random() < 0.7:
         feats.add("defines")
@@ -89,7 +91,7 @@ def executions(case: dict[str, Any]) -> Iterator[dict[str, Any]]:
     prog = progen.Prog.from_record(case["prog"])
     rng = core.substream(case["seed"], "knobs")
     defines = [list(d) for d in prog.defines]
-    mappings = [prog.mapping] if prog.mapping != "low2" else ["low2", "low"]
+    mappings = [prog.mapping] if prog.mapping != "low2" else (["low2", "low"] if "low2_upper" not in prog.features else ["low2"])
     base = {"type": "single", "prog": case["prog"]}
 
     def env() -> dict[str, Any]:
@@ -102,6 +104,7 @@ def executions(case: dict[str, Any]) -> Iterator[dict[str, Any]]:
             "flags": [f for f in ("dump_symbols", "verbose") if rng.random() < 0.25],
             "out_subdir": rng.random() < 0.2,
             "src_subdir": rng.random() < 0.15,
+            "crlf": rng.random() < 0.15,
         }
 
     for m in mappings:
@@ -124,7 +127,8 @@ def executions(case: dict[str, Any]) -> Iterator[dict[str, Any]]:
 def twin_for(prog: progen.Prog, mapping: str) -> dict[str, Any]:
     from .c14 import twin_of
 
-    return twin_of(prog.all_files(), prog.all_roles(), "low" if mapping == "low2" else mapping, [list(d) for d in prog.defines])
+    ref = mapping if mapping != "low2" or "low2_upper" in prog.features else "low"
+    return twin_of(prog.all_files(), prog.all_roles(), ref, [list(d) for d in prog.defines])
 
 
 def check_symfile(text: str, prog: progen.Prog, twin: dict[str, Any], timg: ipsref.Image) -> list[tuple[str, str]]:
@@ -186,6 +190,12 @@ def run_single(case: dict[str, Any], stats: Stats) -> list[Violation]:
     roles.update({"out.ips": "out_ips", "out.sfc": "out_sfc", "out.sym": "symfile", "a.out": "out_ips", "out dir/out.ips": "out_ips", "out dir/out.sfc": "out_sfc"})
     if spec["out"].startswith("out dir/"):
         files["out dir/.keep"] = b""
+    if case.get("crlf"):
+        # stored text files with CR LF line ends: text-mode reading must give the same program
+        for name in list(files):
+            if name.endswith((".s", ".tbl")):
+                files[name] = files[name].replace(b"\r\n", b"\n").replace(b"\n", b"\r\n")
+        stats.bump("probe:crlf_text_files")
     if case.get("src_subdir"):
         # the main source lives in a sub-directory; its .include/.incbin/.table paths stay relative to the cwd
         files["src dir/main.s"] = files.pop("main.s")
@@ -295,7 +305,7 @@ def run_case(case: dict[str, Any], stats: Stats) -> list[Violation]:
         return []
     found: list[Violation] = []
     seen: set[str] = set()
-    if prog.mapping == "low2":
+    if prog.mapping == "low2" and "low2_upper" not in prog.features:
         # if the in-memory API accepts low_rom_2 that run must agree with the low-mapping reference
         from .c14 import twin_of
 
@@ -333,7 +343,7 @@ def sample_of(case: dict[str, Any]) -> Any:
 def shrink_candidates(case: dict[str, Any]) -> Iterator[dict[str, Any]]:
     if case.get("type") != "single":
         return
-    for key, val in (("stale", None), ("abs_paths", False), ("subprocess", False), ("positional_first", True), ("argv_order", None), ("flags", []), ("out_subdir", False), ("src_subdir", False)):
+    for key, val in (("stale", None), ("abs_paths", False), ("subprocess", False), ("positional_first", True), ("argv_order", None), ("flags", []), ("out_subdir", False), ("src_subdir", False), ("crlf", False)):
         if case.get(key) not in (val, None):
             c = dict(case)
             c[key] = val
